@@ -492,6 +492,8 @@ int main(int argc, char** argv) {
         if (g_auto_session) for (int i = 0; i < nw; ++i) enter(toks[i]);
         std::vector<std::vector<Rec>> recs(nw);
         std::vector<std::vector<NvRec>> nvs(nw);
+        const std::uint64_t epoch_at_start = epoch_management::get_epoch();
+        const std::uint64_t gc_epoch_at_start = garbage_collection::get_gc_epoch();
         sched::active.store(true);
         std::vector<std::thread> ths;
         for (int i = 0; i < nw; ++i) ths.emplace_back(worker, i, &recs[i], &nvs[i], &toks[i]);
@@ -513,6 +515,7 @@ int main(int argc, char** argv) {
         // ------------- report
         std::cout << "RUN " << run << " seed " << (seed + run) << " steps " << sched::step_no << " threads " << sched::th.size()
                   << (sched::stuck ? " STUCK" : "") << (sched::replay_infeasible ? " REPLAY-INFEASIBLE" : "") << "\n";
+        std::cout << "EPOCH0 " << epoch_at_start << " " << gc_epoch_at_start << "\n";
         for (int i = 0; i < nw; ++i)
             for (auto& r : recs[i])
                 std::cout << "H " << r.tid << " " << r.idx << " " << r.inv << " " << r.ret << " " << r.text << " => " << r.result << "\n";
